@@ -428,17 +428,19 @@ func step(st *hstate, f []string) []string {
 		}
 		return []string{fmt.Sprintf("ok %d %d", o, t.UnixMicro())}
 	case "del":
+		sv := segVers(st.dir)
 		ms, sz, err := l.Delete(parseOffsets(f[1]))
 		if err != nil {
 			return e(err)
 		}
-		return []string{fmt.Sprintf("ok %d%s", sz, fmtMsgs(ms))}
+		return []string{fmt.Sprintf("ok %d %s%s", sz, versOf(sv, ms), fmtMsgs(ms))}
 	case "delm":
+		sv := segVers(st.dir)
 		ms, sz, err := klevdb.DeleteMulti(ctx, l, parseOffsets(f[1]), noBackoff)
 		if err != nil {
-			return []string{fmt.Sprintf("err %s %d%s", errClass(err), sz, fmtMsgs(ms))}
+			return []string{fmt.Sprintf("err %s %d %s%s", errClass(err), sz, versOf(sv, ms), fmtMsgs(ms))}
 		}
-		return []string{fmt.Sprintf("ok %d%s", sz, fmtMsgs(ms))}
+		return []string{fmt.Sprintf("ok %d %s%s", sz, versOf(sv, ms), fmtMsgs(ms))}
 	case "size":
 		return []string{fmt.Sprintf("ok %d", l.Size(parseMsg(f[1])))}
 	case "findo", "findc", "finds", "finda", "fupd", "fdel":
@@ -468,6 +470,7 @@ func step(st *hstate, f []string) []string {
 		var sz int64
 		var err error
 		a := atoi(f[1])
+		sv := segVers(st.dir)
 		switch f[0] {
 		case "trimo":
 			ms, sz, err = klevdb.TrimByOffsetMulti(ctx, l, a, noBackoff)
@@ -483,14 +486,15 @@ func step(st *hstate, f []string) []string {
 			ms, sz, err = klevdb.CompactDeletesMulti(ctx, l, utime(a), noBackoff)
 		}
 		if err != nil {
-			return []string{fmt.Sprintf("err %s %d%s", errClass(err), sz, fmtMsgs(ms))}
+			return []string{fmt.Sprintf("err %s %d %s%s", errClass(err), sz, versOf(sv, ms), fmtMsgs(ms))}
 		}
-		return []string{fmt.Sprintf("ok %d%s", sz, fmtMsgs(ms))}
+		return []string{fmt.Sprintf("ok %d %s%s", sz, versOf(sv, ms), fmtMsgs(ms))}
 	case "trim1o", "trim1c", "trim1s", "trim1a", "c1upd", "c1del":
 		var ms []klevdb.Message
 		var sz int64
 		var err error
 		a := atoi(f[1])
+		sv := segVers(st.dir)
 		switch f[0] {
 		case "trim1o":
 			ms, sz, err = klevdb.TrimByOffset(ctx, l, a)
@@ -508,7 +512,7 @@ func step(st *hstate, f []string) []string {
 		if err != nil {
 			return e(err)
 		}
-		return []string{fmt.Sprintf("ok %d%s", sz, fmtMsgs(ms))}
+		return []string{fmt.Sprintf("ok %d %s%s", sz, versOf(sv, ms), fmtMsgs(ms))}
 	case "rmindex":
 		segs := listSegs(st.dir)
 		if f[1] == "all" {
@@ -603,6 +607,57 @@ func step(st *hstate, f []string) []string {
 		return damage(st, f[1:])
 	}
 	return []string{"err UnknownOp"}
+}
+
+// segVers reads, independently of klevdb, the record format of every segment file:
+// a V2 log starts with the magic FF 'k' 'l' 'e' 'v' 's'; anything else (incl. empty) is V1.
+type segVer struct {
+	base int64
+	v    byte
+}
+
+func segVers(dir string) []segVer {
+	var res []segVer
+	ents, _ := os.ReadDir(dir)
+	for _, en := range ents {
+		name := en.Name()
+		if !strings.HasSuffix(name, ".log") {
+			continue
+		}
+		base, err := strconv.ParseInt(strings.TrimSuffix(name, ".log"), 10, 64)
+		if err != nil {
+			continue
+		}
+		v := byte('1')
+		if fh, err := os.Open(filepath.Join(dir, name)); err == nil {
+			var h [6]byte
+			if n, _ := io.ReadFull(fh, h[:]); n == 6 && string(h[:]) == "\xffklevs" {
+				v = '2'
+			}
+			fh.Close()
+		}
+		res = append(res, segVer{base, v})
+	}
+	sort.Slice(res, func(i, j int) bool { return res[i].base < res[j].base })
+	return res
+}
+
+// versOf: for every message the format of the segment that held it before the delete
+func versOf(sv []segVer, ms []klevdb.Message) string {
+	if len(ms) == 0 {
+		return "v=-"
+	}
+	b := []byte("v=")
+	for _, m := range ms {
+		v := byte('?')
+		for _, s := range sv {
+			if s.base <= m.Offset {
+				v = s.v
+			}
+		}
+		b = append(b, v)
+	}
+	return string(b)
 }
 
 func doCons(l klevdb.Log, off, max int64) string {
